@@ -134,6 +134,17 @@ theorem extend_strs (rf : Refuse) (w : World) (h : Nat) (t : Bytes) (items : Lis
         (step rf w (.extendStrs h items)).1.text h = some (t ++ ((consumed items).take k).flatten)) :=
   extendStrs_refines hw ht items hv
 
+/-- `extend` from chars with **any** size hint (the hint reservation may be refused and is then
+ignored): old text plus the items consumed, in order -/
+theorem extend_chars (rf : Refuse) (w : World) (h hint : Nat) (t : Bytes) (items : List (Option Bytes)) (hw : Wf w)
+    (ht : w.text h = some t) (hv : ∀ s, some s ∈ items → Valid s) :
+    ((step rf w (.extendChars h hint items)).2 = (if panics items then .panicCb else .ok .unit) ∧
+      (step rf w (.extendChars h hint items)).1.text h = some (t ++ (consumed items).flatten)) ∨
+    ((step rf w (.extendChars h hint items)).2 = .panicAlloc ∧
+      ∃ k, k < (consumed items).length ∧
+        (step rf w (.extendChars h hint items)).1.text h = some (t ++ ((consumed items).take k).flatten)) :=
+  extendChars_refines hw ht hint items hv
+
 /-- `collect` from strs -/
 theorem collect_strs (rf : Refuse) (w : World) (d : Nat) (items : List (Option Bytes)) (hw : Wf w)
     (hd : w.get d = none) (hv : ∀ s, some s ∈ items → Valid s) :
